@@ -364,11 +364,53 @@ def check_collect(repo, rep, mod):
     _check_get_functions(repo, rep, mod)
 
 
+def _keeps_truthy_in_order(m):
+    """`return [x for x in <walk> if x]` / list(filter(None, <walk>))."""
+    rets = [r.value for r in model.walk_shallow(m.node)
+            if isinstance(r, ast.Return) and r.value is not None]
+    if len(rets) != 1:
+        return False
+    v = rets[0]
+    if isinstance(v, ast.ListComp) and len(v.generators) == 1:
+        g = v.generators[0]
+        return isinstance(g.target, ast.Name) and isinstance(
+            v.elt, ast.Name) and v.elt.id == g.target.id and len(
+            g.ifs) == 1 and isinstance(g.ifs[0], ast.Name) and \
+            g.ifs[0].id == g.target.id
+    if isinstance(v, ast.Call) and model.norm(v.func) == 'list' and \
+            v.args and isinstance(v.args[0], ast.Call) and model.norm(
+                v.args[0].func) == 'filter' and isinstance(
+                v.args[0].args[0], ast.Constant) and \
+            v.args[0].args[0].value is None:
+        return True
+    return False
+
+
 def _check_walker(repo, rep, mod, m):
     loops = [n for n in model.walk_shallow(m.node)
              if isinstance(n, ast.While)]
+    walker = m
+    via_generator = False
+    if not loops and m.cls is not None:
+        # the walk may live in a generator method that this one filters
+        for c in model.calls_in(m.node):
+            if isinstance(c.func, ast.Attribute) and isinstance(
+                    c.func.value, ast.Name) and c.func.value.id == \
+                    m.params()[0]:
+                h = repo.find_method(m.cls, c.func.attr)
+                if h is not None and any(
+                        isinstance(n, ast.While)
+                        for n in model.walk_shallow(h.node)) and any(
+                        isinstance(n, ast.Yield)
+                        for n in model.walk_shallow(h.node)):
+                    walker = h
+                    via_generator = True
+                    loops = [n for n in model.walk_shallow(h.node)
+                             if isinstance(n, ast.While)]
+                    break
     ok = len(loops) == 1
-    why = 'expected one walk loop'
+    why = 'expected one walk loop (from the context outward, one ' \
+          'get_functions per layer)'
     if ok:
         lp = loops[0]
         cursor = None
@@ -407,10 +449,20 @@ def _check_walker(repo, rep, mod, m):
         app = [c for s in lp.body for c in model.calls_in(s)
                if isinstance(c.func, ast.Attribute) and
                c.func.attr == 'append']
-        ok2 = len(app) == 1 and layer is not None and model.norm(
-            app[0].args[0]) == layer
-        guard = model.enclosing(app[0], ast.If) if app else None
-        ok2 = ok2 and guard is not None and model.norm(guard.test) == layer
+        if via_generator:
+            # the walker yields every layer in walk order; the method
+            # keeps the non-empty ones, in that order
+            ys = [y for s in lp.body for y in model.walk_shallow(s)
+                  if isinstance(y, ast.Yield)]
+            ok2 = len(ys) == 1 and layer is not None and \
+                ys[0].value is not None and model.norm(
+                    ys[0].value) == layer and _keeps_truthy_in_order(m)
+        else:
+            ok2 = len(app) == 1 and layer is not None and model.norm(
+                app[0].args[0]) == layer
+            guard = model.enclosing(app[0], ast.If) if app else None
+            ok2 = ok2 and guard is not None and model.norm(
+                guard.test) == layer
         rep.ob('R17d', m.key + '/layers-in-walk-order', ok2,
                'non-empty layers must be appended in walk order (nearest '
                'first)', loc=mod.loc(lp))
